@@ -25,8 +25,12 @@ CGuard(K(_), gm, d, now) == IF CDup(K, gm, d, now) THEN gm ELSE [d |-> d, t |-> 
 CNewTc(K(_), gm, train, d, a, now) == ~CDup(K, gm, d, now) /\ K(d).kind = "q" /\ K(d).tc /\ d \notin CRange(train[a])
 CAnyTc(K(_), gm, d, now) == ~CDup(K, gm, d, now) /\ K(d).kind = "q" /\ K(d).tc
 \* the clause a timer call [a, pk] at `now` violates ("" = none)
+\* the same datagram twice in one assembly: a repeated delivery had an effect (a copy that carries a QU question is exempt from
+\* the guard but not from the train's own check)
+CHasDup(pk) == \E i, j \in 1..Len(pk) : i < j /\ pk[i] = pk[j]
 CTimerCall(train, tnew, tany, a, pk, now) ==
   IF pk = <<>> THEN "C15_EmptyAssembly"
+  ELSE IF CHasDup(pk) THEN "C16_DuplicateEffect"
   ELSE IF pk # train[a] THEN "C12_TrainAssembly"
   ELSE IF now < tnew[a] + 400 \/ now > tany[a] + 500 THEN "C12_HoldWindow"
   ELSE ""
